@@ -27,7 +27,7 @@ def norm_r(r):
             'meths': sorted(r['meths']), 'name': r['name']}
 
 
-def run_history(rng, ops, probes, verbs, nprobe, e2e=0, last_nprobe=None, last_e2e=None):
+def run_history(rng, ops, probes, verbs, nprobe, e2e=0, last_nprobe=None, last_e2e=None, nverbs=2):
     """Apply ops to a fresh real router; after each op record state and sampled probe answers."""
     rr = rl.RealRouter(rng)
     out = []
@@ -44,7 +44,7 @@ def run_history(rng, ops, probes, verbs, nprobe, e2e=0, last_nprobe=None, last_e
         ans = []
         sample = probes if len(probes) <= nprobe else rng.sample(probes, nprobe)
         for p in sample:
-            for v in (verbs if len(verbs) <= 2 else rng.sample(verbs, 2)):
+            for v in (verbs if len(verbs) <= nverbs else rng.sample(verbs, nverbs)):
                 a = rr.resolve(p, v.upper())
                 a.update({'path': p, 'verb': v.upper()})
                 a.setdefault('h', '')
@@ -364,6 +364,57 @@ def run(chk, pid):
         traces.append(t)
         e2e_bad += bad
         chk.count(1, ('rand', json.dumps([strip_op(o) for o in t])[:600]))
+    # dense histories: a few rules, every operation followed by EVERY probe with every verb, so that anything remembered from
+    # an earlier answer (cached Allow strings, cached matches, indexes by name) meets the edit that should have invalidated it
+    for it in range(400 if thorough else 45):
+        uni = rand_universe(rng, rng.choice([2, 3]), with_methods=True)
+        for r in list(uni):
+            have = set(r['meths'])
+            rest = [m for m in ['GET', 'HEAD', 'POST', 'ANY', 'PUT'] if m not in have]
+            ms = rng.sample(rest, rng.randint(1, min(2, len(rest))))
+            uni.append(dict(r, id=r['id'] + 's', meths=sorted(ms), meths_spelled=ms, name=''))
+        named = [r for r in uni if r['name']]
+        tmpl = it % 3
+        if tmpl == 0:      # method-set edits on one pattern
+            r = rng.choice(uni)
+            r2 = rng.choice([x for x in uni if x['pat'] == r['pat']])
+            ops = [{'op': 'add', 'r': r, 'ow': False, 'spelled': r.get('meths_spelled')},
+                   {'op': 'add', 'r': r2, 'ow': True, 'spelled': r2.get('meths_spelled')},
+                   {'op': 'remove_method', 'pat': r['pat'], 'meth': rng.choice(r['meths'] + r2['meths'])},
+                   {'op': 'add', 'r': r, 'ow': True, 'spelled': r.get('meths_spelled')},
+                   {'op': 'add', 'r': r2, 'ow': False, 'spelled': r2.get('meths_spelled')}]
+            ops += rand_history(rng, uni, 3, ['add', 'remove_method', 'remove_rule'])
+        elif tmpl == 1 and named:    # names: removal by prefix / rule / name and re-use of the name
+            r = rng.choice(named)
+            other = rng.choice([x for x in uni if x['pat'] != r['pat']] or [r])
+            cut = [i for i, c in enumerate(r['pat']) if c == 47 and TOKEN not in r['pat'][:i]]
+            pre = r['pat'][:rng.choice(cut)] if cut else r['pat'][:1]
+            ops = [{'op': 'add', 'r': r, 'ow': False, 'spelled': None}, {'op': 'add', 'r': other, 'ow': False, 'spelled': None}]
+            if pre and TOKEN not in pre:
+                ops.append({'op': 'remove_prefix', 'pre': pre})
+            ops += [{'op': 'add', 'r': dict(other, name=r['name'], id=other['id'] + 'n'), 'ow': True, 'spelled': None},
+                    {'op': 'remove_name', 'name': r['name']},
+                    {'op': 'add', 'r': r, 'ow': False, 'spelled': None}]
+        else:
+            ops = rand_history(rng, uni, 8, ['add', 'add', 'remove_rule', 'remove_name', 'remove_method', 'add_hook', 'remove_prefix'])
+            for o in ops:
+                if o['op'] == 'add' and rng.random() < 0.5:
+                    o['ow'] = True
+        hookpats = [o['r']['pat'] for o in ops if o['op'] in ('add_hook', 'remove_hook')]
+        ops2 = []
+        for o in ops:
+            if o['op'] == 'remove_obj?' or (o['op'] == 'remove_prefix' and any(h[:len(o['pre'])] == o['pre'] for h in hookpats)):
+                continue
+            o.setdefault('flavour', rng.randrange(12))
+            ops2.append(o)
+        probes = rl.instances(uni, [97, 47, 49, TOKEN], rng)
+        if len(probes) > 10:
+            probes = rng.sample(probes, 10)
+        dverbs = ['GET', 'HEAD', 'POST', 'PUT', 'PURGE']
+        t, bad = run_history(rng, ops2, probes, dverbs, len(probes), e2e=0, nverbs=len(dverbs))
+        traces.append(t)
+        e2e_bad += bad
+        chk.count(1, ('dense', json.dumps([strip_op(o) for o in t])[:600]))
     chk.sample({'kind': 'random-history', 'ops': [describe(o) for o in traces[0]][:10],
                 'answers': [[rl.l2s(a['path']), a['verb'], a['k'], a['h']] for a in traces[0][-1]['ans'][:6]]})
     validate(chk, pid, traces, 'random universes')
